@@ -1,4 +1,5 @@
-import Sucds.Proofs.GenAll
+import Sucds.Proofs.GenBitVectorRW
+import Sucds.Proofs.GenBitVectorScan
 import Sucds.Props.C07
 /-! # C07 over the `BitVector` definitions *generated from the Rust sources*
 
